@@ -323,6 +323,9 @@ def sym_input(E, unit, name='s'):
             cs[p] = c
         return E.SStr(cs), chars
     x, chars = E.symstr(unit['L'], name, lo, hi)
+    for ch in unit.get('exclude') or '':
+        for c in chars:
+            E.assume(c != ord(ch))
     pre = unit.get('prefix')
     if pre:
         x = E.SStr([ord(c) for c in pre] + chars[len(pre):])
